@@ -600,6 +600,10 @@ MUTANTS = [
     M("L1-3-no-decrement", ["C01", "C07"], (MH, "            remaining_card_len -= len;\n", ""), base="L1-3"),
     M("L1-3-filter-off", ["C01", "C07"], (MH, ".filter(|&(_, len)| len > 0)", ".filter(|&(_, len)| len > 1)"), base="L1-3"),
     M("L1-3-decrement-first", ["C01", "C07"], (MH, "            let offset = dp_ref(len, rank, remaining_card_len);\n", "            remaining_card_len -= len;\n            let offset = dp_ref(len, rank, remaining_card_len);\n            remaining_card_len += len;\n"), base="L1-3"),
+    M("benign-G8-3-variant-projectors", ["C06", "C17", "C12", "C05"], base="G8-3", benign=True),
+    M("G8-3-high-swapped-for-suited", ["C06"], (RP, "            RankPair::Suited(high, _) | RankPair::Ofsuit(high, _) => high,", "            RankPair::Suited(_, high) | RankPair::Ofsuit(high, _) => high,"), base="G8-3"),
+    M("G8-3-kicker-is-high-for-pocket-ok-but-ofsuit-swapped", ["C06"], (RP, "            RankPair::Suited(_, kicker) | RankPair::Ofsuit(_, kicker) => kicker,", "            RankPair::Suited(_, kicker) | RankPair::Ofsuit(kicker, _) => kicker,"), base="G8-3"),
+    M("G8-3-suffix-swapped", ["C06"], (RP, "            RankPair::Suited(_, _) => f.write_str(\"s\"),\n            RankPair::Ofsuit(_, _) => f.write_str(\"o\"),", "            RankPair::Suited(_, _) => f.write_str(\"o\"),\n            RankPair::Ofsuit(_, _) => f.write_str(\"s\"),"), base="G8-3"),
     M("benign-F3-3-computed-flush-weight", ["C01", "C07", "C08"], base="F3-3", benign=True),
     M("F3-3-unreversed", ["C01", "C07"], (MH, "1 << (12 - u8::from(card.rank()))", "1 << u8::from(card.rank())"), base="F3-3"),
     M("F3-3-off-by-one", ["C01", "C07"], (MH, "1 << (12 - u8::from(card.rank()))", "1 << (13 - u8::from(card.rank()))"), base="F3-3"),
